@@ -32,7 +32,8 @@ CHECKS = {
              'reprocessed state overwrite; garbage collection precedes graph construction and filters the state vector and '
              'the edge vector by the same membership test; a goto set is merged only into a state that passed the weak-compatibility test, '
              'and the closed form of the state being processed is stored before its successors are merged; the new number garbage '
-             'collection writes into an edge depends on the edge\'s target, never on a running count of the loop over the source states.',
+             'collection writes into an edge depends on the edge\'s target, never on a running count of the loop over the source states; '
+             'the look-ahead intersection test answers true as soon as any pair of storage words shares a bit.',
         note='Necessary conditions only: equivalence with canonical LR(1) on every input and "never more states than canonical" '
              'need an independent construction and are NOT decided. Trusted: ' + TB,
         technique='path-table extraction (exhaustive over the 4 intersection atoms), dominance and reachability over MIR',
@@ -215,7 +216,7 @@ CHECKS = {
              'point that can write a cell and under a decode of that cell; the per-variant contribution table, the '
              'encode/decode tag tables and goto\'s +1 encoding are enumerated exhaustively; shift/goto targets are '
              'shown to come from the graph edge of the same symbol; gc dominates graph construction and keeps exactly a '
-             'reachability closure from the start state.',
+             'reachability closure from the start state; every accessor that scans a row of a derived view scans start .. start + width for one `*_len` width of the table, the one its start is computed from.',
         note='Does NOT decide that each closed state is the LR(1) closure of its core (C01). Trusted: Vob::set / '
              'SparseVec::from,get semantics; ' + TB,
         technique='MIR CFG reachability/dominance (write-after-view ordering) + exhaustive path-table extraction for encode/decode and the per-cell view table',
